@@ -126,18 +126,23 @@ class Flow(object):
             return self.parents[0].names  # type: ignore[return-value]
         elif len(self.parents) > 1:
             names = {}  # type: dict[str, Name | MultiName]
-            nameset = set()  # type: set[str]
+            nameset = {}  # type: dict[str, None]  # ordered set
             pnames = [p.names for p in self.parents
                       if p.names is not UNRESOLVED]  # type: list[t.Mapping[str, Name]] # type: ignore[misc]
             for p in pnames:
-                nameset.update(p)
+                for n in p:
+                    nameset[n] = None
             for n in nameset:
-                nrow = set(r.get(n, UndefinedName(n)) for r in pnames)
+                nrow = []  # type: list[Name]
+                for r in pnames:
+                    value = r.get(n, UndefinedName(n))
+                    if value not in nrow:
+                        nrow.append(value)
                 if len(nrow) == 1:
                     # single undefined names is not possible
-                    names[n] = list(nrow)[0]  # type: ignore[assignment]
+                    names[n] = nrow[0]
                 else:
-                    names[n] = MultiName(list(nrow))
+                    names[n] = MultiName(nrow)  # type: ignore[arg-type]
             return names
         else:
             pscope = self.scope.parent
